@@ -101,7 +101,30 @@ func check(c Case) (kind, what string, nt bool) {
 	}
 	var got []byte
 	var derr error
-	if pn, msg := ev.Guard(func() { got, derr = io.ReadAll(a.Stream) }); pn {
+	if pn, msg := ev.Guard(func() {
+		// how the caller drains the stream is the caller's business: io.ReadAll, io.Copy (which prefers the
+		// stream's own WriteTo when it has one), or reads of a few bytes at a time
+		switch (len(c.Data) + len(c.Sizes) + c.Prefix) % 3 {
+		case 0:
+			got, derr = io.ReadAll(a.Stream)
+		case 1:
+			var buf bytes.Buffer
+			_, derr = io.Copy(&buf, a.Stream)
+			got = buf.Bytes()
+		default:
+			// a first small Read, then io.Copy for the rest
+			first := make([]byte, 5)
+			n, err := io.ReadFull(a.Stream, first)
+			got = append(got, first[:n]...)
+			if err == nil {
+				var buf bytes.Buffer
+				_, derr = io.Copy(&buf, a.Stream)
+				got = append(got, buf.Bytes()...)
+			} else if err != io.EOF && err != io.ErrUnexpectedEOF {
+				derr = err
+			}
+		}
+	}); pn {
 		return "panic", "reading autometa's stream: " + msg, nt
 	}
 	if derr != nil || !bytes.Equal(got, c.Data) {
